@@ -41,7 +41,9 @@ def layout_case(h, kind):
         if k2: lines += [b'/* block'] + [b' more %d' % i for i in range(k2 - 1)] + [b' end */ x0 = 1;'] if k2 > 1 else [b'/* one line */ x0 = 1;']
         if k3: lines += [b'#define MAC(a) a + \\'] + [b'  %d + \\' % i for i in range(k3 - 1)] + [b'  0']
         else: lines += [b'#define MAC(a) a + 0']
-        lines += [b'#ifdef NOT_DEFINED'] + [b'hidden%d = 1;' % i for i in range(k4)] + [b'#else', b'x1 = MAC(2);', b'#endif']
+        # the inactive branch holds plain lines (k4 = 1) or a directive continued over two lines (k4 = 2): skipped text still counts as lines
+        hidden = [b'hidden0 = 1;'] if k4 == 1 else [b'#define HID 1 + \\', b'  2'] if k4 == 2 else []
+        lines += [b'#ifdef NOT_DEFINED'] + hidden + [b'#else', b'x1 = MAC(2);', b'#endif']
         lines += [b'#define ACTIVE', b'#ifdef ACTIVE', b'x2 = 3;', b'#endif']
         pad = b' ' * col
         if kind == 'runtime': fault = pad + b'[] select 5;'; fcol = col + 3
@@ -135,7 +137,7 @@ def run(ctx):
         for x in rr.get('violations', []):
             if x['msg'] == v['msg'] and x.get('src'): return dict(kind='layout', hex=x['src'].encode('latin1').hex())
         return None
-    r = oblig.run('layout.e2e', [(k, layout_case(h, k)) for k in ('runtime', 'parse', 'line', 'macroline')], ctx, funcs, 'layouts: 0-2 // comment lines, block comment over 0-2 lines, #define continued over 0-3 lines, inactive #ifdef block of 0-2 lines with #else, active #ifdef, LF or CRLF, fault at column 0-3: 3*3*4*3*2*4 = 864 layouts x 4 fault kinds (runtime error, parse error, __LINE__/__FILE__, runtime error inside a macro argument)',
+    r = oblig.run('layout.e2e', [(k, layout_case(h, k)) for k in ('runtime', 'parse', 'line', 'macroline')], ctx, funcs, 'layouts: 0-2 // comment lines, block comment over 0-2 lines, #define continued over 0-3 lines, inactive #ifdef block of 0-2 lines (a plain line or a #define continued over two lines) with #else, active #ifdef, LF or CRLF, fault at column 0-3: 3*3*4*3*2*4 = 864 layouts x 4 fault kinds (runtime error, parse error, __LINE__/__FILE__, runtime error inside a macro argument)',
                   assumptions=['single file (no #include) in this obligation', 'allocation failure is out of scope'], case_timeout=2400, keyfn=lambda cid, v, rr: 'layout.e2e:%s:%s' % (cid, re.sub(r'\d+', '#', v.get('msg', '')[v.get('msg', '').find(': ') + 2:])[:70].replace(' ', '_')), replayfn=rep, step_limit=600_000_000,
                   sample_fn=lambda rr: dict(layout=rr.get('text')) if rr.get('text') else None)
     if r:
